@@ -454,7 +454,7 @@ def c07(tier, seed):
     # the PHC term over sequences of reports: the bound of the latest synchronised report includes the PHC
     # error bound of THAT report, whatever later reports carry
     b, n = daemon_cover(rep, "phc", COVERS["phc"])
-    drifts = daemon_replay(rep, b, {"C07", "C08"}, "Daemon cover phc (PHC term across report sequences)")
+    drifts = daemon_replay(rep, b, {"C07"}, "Daemon cover phc (PHC term across report sequences)")
     rr = djson(["refid"], timeout=120)
     rep.evaluations += len(rr["rows"])
     rep.notes.append(f"refid / PHC file: {len(rr['rows'])} cases (configured id through the CLI parser vs reported id; unreadable PHC files)")
